@@ -19,7 +19,9 @@ GroupFull == [nodes |-> <<<<0, "N1">>, <<1, "N2">>, <<2, "N3">>>>, thr |-> 2,
 
 AllInfos == [period : Periods, genesis : Geneses, pk : Firsts, seed : Seeds, id : Ids]
 
-SimInit == /\ val \in (IF Family = "chain" THEN {InfoInit} ELSE {GroupInit, GroupFull})
+SimInit == /\ val \in (IF IsChainFam THEN {InfoInit}
+                      ELSE IF Family = "groupseq" THEN {Observe(GroupInit @@ [frozen |-> <<>>]), Observe(GroupFull @@ [frozen |-> <<>>])}
+                      ELSE {GroupInit, GroupFull})
            /\ act = [name |-> "init"] /\ prev = val
            /\ hist = <<[a |-> [name |-> "init"], v |-> val]>>
 \* TLC picks uniformly among successor STATES, and resharing has by far the most parameter
@@ -30,7 +32,18 @@ GroupSets == G_SetNodeKey \/ G_SetNodeIndex \/ G_SetThr \/ G_SetGenesis \/ G_Set
 ChainSets == C_SetPeriod \/ C_SetGenesis \/ C_SetPk \/ C_SetSeed \/ C_SetId
 Phase == Len(hist) % 6
 SimAction ==
-  IF Family = "group" THEN
+  IF Family = "chainseq" THEN        \* one live Info: assign, decode into it, copy, hash - in turn
+    CASE Phase \in {0, 3} -> ChainSeqSets
+      [] Phase \in {1, 4} -> Q_Decode
+      [] Phase = 2 -> (Q_Hash \/ Q_ToProto)
+      [] OTHER -> Q_CopySet
+  ELSE IF Family = "groupseq" THEN   \* one live Group
+    CASE Phase \in {0, 3} -> R_Sets
+      [] Phase = 1 -> (R_Permute \/ (~ENABLED R_Permute /\ R_Sets))
+      [] Phase = 2 -> R_CopySet
+      [] Phase = 4 -> R_Hash
+      [] OTHER -> GroupSeqNext
+  ELSE IF Family = "group" THEN
     CASE Phase = 0 -> G_Via
       [] Phase = 1 -> GroupSets
       [] Phase = 2 -> (G_Permute \/ (~ENABLED G_Permute /\ GroupSets))
